@@ -15,6 +15,7 @@ operation sequence on a name table is ONE line:
   op <id> rho P NAME                  → strings.Replace(NAME, "derive", P, 1)
   op <id> effprefixes P (ov (PLUGIN PFX)…) → effective prefixes of the 33 default plugins, sorted
   op <id> defaultplugins              → the model's table of (plugin, default prefix)
+  op <id> reservedwords               → the model's list of keywords + universe names (`G.reservedWordStrings`)
   op <id> imports (NAME PATH)…        → aliases returned by the import closures `,`-joined `|` final table
   op <id> unvendor PATH               → derive.unvendor(PATH)
 
@@ -384,6 +385,7 @@ def run (_s : DState) (name : String) (args : List SExp) : Option String :=
   | "defaultplugins" =>
     some ("model=" ++ ",".intercalate (defaultPlugins.map fun (n, p) => n ++ "=" ++ p))
   | "imports" => some (runImports args)
+  | "reservedwords" => some ("model=" ++ ",".intercalate reservedWordStrings)
   | "unvendor" =>
     match args with
     | [.atom a] => match unesc a with
